@@ -60,7 +60,7 @@ func (c05) Budget(tier string) runner.Budget {
 	if tier == "thorough" {
 		return runner.Budget{Plans: 6000, PlansPerProc: 6, Wall: 14 * time.Minute}
 	}
-	return runner.Budget{Plans: 160, PlansPerProc: 4, Wall: 100 * time.Second}
+	return runner.Budget{Plans: 400, PlansPerProc: 5, Wall: 45 * time.Second}
 }
 
 func (c05) Describe() runner.Description {
@@ -79,6 +79,47 @@ func (c05) Gen(seed uint64, tier string) json.RawMessage {
 	p := c05Plan{Seed: seed, Forks: string(node.ForksDevLike), Crash: r.Chance(0.8)}
 	if r.Chance(0.3) {
 		p.Forks = string(node.ForksLatestSync)
+	}
+	if r.Chance(0.4) {
+		// reorg scenario: a main chain, then a single competing block from an earlier fork point whose
+		// weight ties or beats the whole main branch (multi-block removal), then possibly an extension
+		L := r.Range(2, 5)
+		qsum := make([]uint64, L+1)
+		for i := 0; i < L; i++ {
+			q := uint64(r.Range(1, 3))
+			p.Blocks = append(p.Blocks, c05Block{Parent: i - 1, QN: q, PV: int64(r.Range(1, 4)), Castor: r.Intn(2)})
+			if r.Chance(0.5) {
+				p.Blocks[i].Txs = []c05Tx{{From: r.Intn(4), To: r.Intn(6), Amount: fmt.Sprintf("%d", r.Range(1, 50))}}
+			}
+		}
+		for i := L - 1; i >= 0; i-- {
+			qsum[i] = qsum[i+1] + p.Blocks[i].QN
+		}
+		d := r.Intn(L) // the competing block replaces blocks d..L-1
+		comp := c05Block{Parent: d - 1, QN: qsum[d] + uint64(r.Intn(2)), PV: int64(r.Range(2, 7)), Castor: r.Intn(2)}
+		if r.Chance(0.3) && len(p.Blocks[d].Txs) > 0 {
+			comp.ReTx = d + 1 // carries the same transactions as the block it replaces
+		} else if r.Chance(0.5) {
+			comp.Txs = []c05Tx{{From: r.Intn(4), To: r.Intn(6), Amount: fmt.Sprintf("%d", r.Range(1, 50))}}
+		}
+		p.Blocks = append(p.Blocks, comp)
+		if r.Chance(0.5) {
+			p.Blocks = append(p.Blocks, c05Block{Parent: L, QN: 1, PV: 2, Castor: 0})
+		}
+		for i := range p.Blocks {
+			p.Deliver = append(p.Deliver, i)
+			if r.Chance(0.1) {
+				p.Deliver = append(p.Deliver, i)
+			}
+			if r.Chance(0.06) {
+				p.Deliver = append(p.Deliver, -1)
+			}
+		}
+		if r.Chance(0.3) {
+			p.Deliver = append(p.Deliver, r.Intn(L)) // a loser of the reorg is delivered again
+		}
+		b, _ := json.Marshal(p)
+		return b
 	}
 	nb := r.Range(2, 7)
 	if r.Chance(0.25) {
@@ -534,6 +575,7 @@ func (c05) Exec(raw json.RawMessage, st *simrt.Stats, log *simrt.Log) *simrt.Vio
 	}
 
 	// fault enumeration: crash after write k of delivery ev, restart
+	var deferred *simrt.Violation
 	for _, im := range images {
 		rn := node.Boot(im.disk, forks, false)
 		st.Fault("crash_after_store_write")
@@ -565,7 +607,14 @@ func (c05) Exec(raw json.RawMessage, st *simrt.Stats, log *simrt.Log) *simrt.Vio
 					where = "intermediate-block-of-old-branch"
 				}
 			}
-			return simrt.Violationf("C05", "head-after-crash", where, im.ev, "after a crash following store write %d of %d of delivery %d the head is %x; old head %x, new head %x", im.k, im.w, im.ev, h.Bytes()[:6], im.old.Bytes()[:6], im.new.Bytes()[:6])
+			v := simrt.Violationf("C05", "head-after-crash", where, im.ev, "after a crash following store write %d of %d of delivery %d the head is %x; old head %x, new head %x", im.k, im.w, im.ev, h.Bytes()[:6], im.old.Bytes()[:6], im.new.Bytes()[:6])
+			if where != "intermediate-block-of-old-branch" {
+				return v
+			}
+			// recorded finding class: keep judging every other clause on every other image, report it last
+			if deferred == nil {
+				deferred = v
+			}
 		}
 		if im.old != im.new {
 			st.Nontrivial(simrt.Mix(simrt.HashString(shape), uint64(im.ev*1000+im.k)))
@@ -586,7 +635,7 @@ func (c05) Exec(raw json.RawMessage, st *simrt.Stats, log *simrt.Log) *simrt.Vio
 		}
 	}
 	st.State(simrt.HashString(shape))
-	return nil
+	return deferred
 }
 
 func (c05) Shrink(raw json.RawMessage) []json.RawMessage {
